@@ -32,6 +32,8 @@ CLASS_SPECS = [
     dict(cls='bsub', slug='bsub', base='b', inputs=[dict(ref='a', how='name')], pulls=['a']),
     dict(cls='both', slug='both', inputs=[dict(ref='g:a', how='name'), dict(ref='a', how='name')]),
     dict(cls='both2', slug='both2', inputs=[dict(ref='a', how='name'), dict(ref='g:a', how='name')]),
+    dict(cls='gb', slug='g:b'),
+    dict(cls='mi', slug='mi', inputs=[dict(ref='a', how='name')], pulls=['a'], meta_inherit=True),
 ]
 CLSNAME = {s['cls']: 'R' + s['cls'].capitalize() + 'Task' for s in CLASS_SPECS}
 
@@ -46,6 +48,7 @@ def module():
         specs.append(dict(slug=s['slug'], cls_name=CLSNAME[s['cls']], params=copy.deepcopy(s.get('params', [])),
                           run_params=list(s.get('run_params', [])), pulls=list(s.get('pulls', [])),
                           inputs=copy.deepcopy(s.get('inputs', [])), kind='json', abstract=s.get('abstract', False),
+                          meta_inherit=s.get('meta_inherit', False),
                           base=s.get('base')))
     return gen.make_module(specs, MODULE)
 
@@ -58,10 +61,10 @@ def U(f, ns=''):
 def menus(tier):
     targets = [U(f, ns) for f in ('P1', 'P2') for ns in ('', 'n', 'train')]
     root_uses = [[]] + [[u] for u in targets] + [[u, v] for u in targets for v in targets]
-    root_tasks = [[], ['trainx'], ['a']]
+    root_tasks = [[], ['trainx'], ['a'], ['c']]
     p1 = []
     for tasks in (['a', 'b'], ['a', 'b', 'z'], ['a', 'c'], ['b'], ['a', 'w', 'pat'], ['cy1', 'cy2'], ['a', 'b', 'bsub'],
-                  ['a', 'w', 'both', 'both2'], ['a', 'both']):
+                  ['a', 'w', 'both', 'both2'], ['a', 'both'], ['a', 'c', 'gb'], ['a', 'mi']):
         for vals in ({}, {'x': 1}):
             for uses in ([], [U('P2')], [U('P2', 'n')]):
                 if tasks in (['b'], ['cy1', 'cy2']) and vals:
@@ -109,11 +112,11 @@ def _tla_file(f):
             f'vals |-> {_tla_vals(f["vals"])}, uses |-> {_tla_uses(f["uses"])}]')
 
 
-def mc_impl(tier, seed, mod, prefix_sep=True):
+def mc_impl(tier, seed, mod, prefix_sep=True, class_exact=True):
     """the implementation-level algorithm (ResolveImpl.tla) against the property level, on the same forests"""
     text, cfg, sizes = mc(tier, seed, mod, emit=False)
     text = text.replace('MODULE MCResolve', 'MODULE MCResolveImpl').replace('EXTENDS Resolve', 'EXTENDS ResolveImpl')
-    cfg = cfg.replace('INIT Init', f'  PrefixSep = {"TRUE" if prefix_sep else "FALSE"}\nINIT Init')
+    cfg = cfg.replace('INIT Init', f'  PrefixSep = {"TRUE" if prefix_sep else "FALSE"}\n  ClassRefExact = {"TRUE" if class_exact else "FALSE"}\nINIT Init')
     cfg = cfg[:cfg.index('INIT Init')] + 'INIT InitI\nNEXT NextI\nINVARIANT ImplConforms\nINVARIANT MountsConform\n'
     return text, cfg, sizes
 
@@ -399,6 +402,15 @@ def run(ctx, cats):
                          'violated': rd.invariant_violated})
     if rd.invariant_violated != 'ImplConforms':
         raise MachineryError('ResolveImpl with the pinned prefix test was expected to violate ImplConforms (vacuity guard)')
+    td, cd, _ = mc_impl(ctx.tier, 0, 61, class_exact=False)
+    rd = run_tlc('MCResolveImpl', cfg_text=cd, extra_files={'MCResolveImpl.tla': td}, workers=16, timeout=3000, deadlock=False,
+                 expect_ok=False)
+    ctx.tlc_runs.append({'run': "ResolveImpl with the by-class lookup of the pinned 1.4.0 code (a grouped namesake makes the lookup "
+                                "succeed, tasks[name] then raises KeyError - also for an optional input) against the property "
+                                "(counterexample expected: defect D21, found by this check, repaired)",
+                         'violated': rd.invariant_violated})
+    if rd.invariant_violated != 'ImplConforms':
+        raise MachineryError('ResolveImpl with the pinned by-class lookup was expected to violate ImplConforms (vacuity guard)')
     global _CASES
     _CASES = cases
     _SEED[0] = ctx.seed
